@@ -82,8 +82,38 @@ def first_diff(a, b, path=""):
 
 # ---------------------------------------------------------------- corpus
 
-def corpus_docs():
+def edge_docs():
+    """size and count thresholds, rare characters in header names: a fixed set of documents every
+    parse-based property runs (beyond 9/10/16/64/128/255/256/1000/8192 of everything)"""
     docs = []
+    long_ = "x" * 9000
+    docs.append(f"Feature: f\n  {long_}\n  Scenario: s\n    Given {long_} tail\n      | {long_} | b |\n")
+    docs.append("Feature: " + "n" * 70000 + "\n  Scenario: s\n    Given a\n")
+    docs.append("Feature: f\n  " + " ".join(f"@t{i}" for i in range(300)) + "\n  Scenario: s\n    Given a\n")
+    for w in (255, 256, 257, 300):
+        row = "      |" + "".join(f" c{i} |" for i in range(w)) + "\n"
+        docs.append("Feature: f\n  Scenario: s\n    Given wide\n" + row * 3)
+        docs.append("Feature: f\n  Scenario Outline: s\n    Given <c1>\n    Examples:\n" + row * 2 + row.replace("| c3 |", "|", 1))
+    for n in (17, 127, 128, 129, 300):
+        run = "".join(["  @t\n", "  # c\n", "\n"][i % 3] for i in range(n))
+        docs.append("Feature: f\n  Scenario Outline: o\n    Given <a>\n  @first\n" + run + "    Examples:\n      | a |\n      | 1 |\n")
+        docs.append("Feature: f\n  Scenario: o\n    Given a\n  @first\n" + run + "  Scenario: next\n    Given b\n")
+        docs.append("Feature: f\n  Scenario: o\n    Given a\n  @first\n" + run + "  junk\n")
+    docs.append("Feature: f\n  Scenario: s\n    Given t\n" + "".join(f"      | r{i} | v |\n" for i in range(1200)))
+    docs.append("Feature: f\n  Scenario: s\n" + "".join(f"    And step {i}\n" for i in range(1100)))
+    docs.append("Feature: f\n  Scenario Outline: s\n    Given <a>\n" + "".join(f"    Examples: e{i}\n      | a |\n      | {i} |\n" for i in range(70)))
+    docs.append("Feature: f\n  Scenario: s\n    Given d\n      \"\"\"\n" + "".join(f"      line {i}\n" for i in range(1100)) + "      \"\"\"\n")
+    docs.append("Feature: f\n" + "".join(f"  Rule: r{i}\n    Example: e\n      Given x\n" for i in range(70)))
+    docs.append("".join(f"junk {i}\n" for i in range(30)))
+    docs.append("Feature: f\n  Scenario: s\n    Given a\n" + "".join(f"      | a |\n      | b | c |\n    And s{i}\n" for i in range(14)) + "foo\n")
+    for name in ("ſv", "Kn", "fı", "İt", "zh_CN", "en_au", "sr_Cyrl", "en_Scouse", "mk_Latn", "pt_BR", "fr2", "é"):
+        docs.append(f"# language: {name}\nFeature: f\n  Scenario: s\n    Given a\n")
+        docs.append(f"  #language:{name}\nFunktionalitet: f\n")
+    return docs
+
+
+def corpus_docs():
+    docs = edge_docs()
     for f in sorted(glob.glob(os.path.join(REPO, "testdata", "good", "*.feature")) +
                     glob.glob(os.path.join(REPO, "testdata", "bad", "*.feature"))):
         with open(f, encoding="utf8", newline="") as fh:
